@@ -1430,11 +1430,15 @@ def _run_specs(specs, cmds):
     """
     resume_process(proc)
 
-    if background and len(cp.procs) > 1:
+    if background and proc is not None and len(cp.procs) > 1:
         # Nobody iterates a background pipeline.  Without a closer the shell
         # keeps its copies of the connecting pipes' write ends: the later
         # stages never see EOF and the job never finishes.
-        PrevProcCloser(pipeline=cp)
+        try:
+            PrevProcCloser(pipeline=cp)
+        except RuntimeError:
+            # no thread to spare: the pipeline is merely not driven forward
+            pass
 
     if captured == "object":
         return cp
